@@ -136,6 +136,9 @@ func muxEffects(c *core.Ctx, R string) {
 		g := u.Graph()
 		info := u.Info()
 		endsSlash := func(x *core.Unit, br core.Branch) int {
+			if r := hasSuffixSlash(x, br, paramName(u, 0)); r != 0 {
+				return r
+			}
 			be, isB := ast.Unparen(br.Cond).(*ast.BinaryExpr)
 			if br.IsCase || !isB {
 				return 0
